@@ -54,6 +54,7 @@ type Term struct {
 	Kind  int // kConst, kLit, kApp, kUF, kQuant, kBound
 	Bound []*Term // for quantifiers: bound variables
 	hasBV bool    // contains a bound variable (not hoistable)
+	hasQ  bool    // contains a quantifier (not hash-consed: compare by text)
 	str   string  // cached print
 	id    int
 }
@@ -69,16 +70,46 @@ const (
 
 var termCounter int
 
+// Terms are hash-consed (except quantifiers, whose bound list is attached after construction): structurally equal
+// terms are the same pointer, so equality tests need no printing.
+var internTab = map[string]*Term{}
+
 func mk(kind int, op string, sort Sort, args ...*Term) *Term {
+	var key string
+	if kind != kQuant {
+		var b strings.Builder
+		b.Grow(16 + len(op) + 8*len(args))
+		b.WriteByte(byte('0' + kind))
+		b.WriteString(op)
+		b.WriteByte(0)
+		b.WriteString(string(sort))
+		for _, a := range args {
+			b.WriteByte(0)
+			b.WriteString(strconv.Itoa(a.id))
+		}
+		key = b.String()
+		if t, ok := internTab[key]; ok {
+			return t
+		}
+	}
 	termCounter++
 	t := &Term{Op: op, Args: args, Sort: sort, Kind: kind, id: termCounter}
 	for _, a := range args {
 		if a.hasBV {
 			t.hasBV = true
 		}
+		if a.hasQ {
+			t.hasQ = true
+		}
 	}
 	if kind == kBound {
 		t.hasBV = true
+	}
+	if kind == kQuant {
+		t.hasQ = true
+	}
+	if kind != kQuant {
+		internTab[key] = t
 	}
 	return t
 }
@@ -202,7 +233,10 @@ func same(a, b *Term) bool {
 	if a == b {
 		return true
 	}
-	return a.String() == b.String()
+	if a.Kind == kQuant || b.Kind == kQuant || a.hasQ || b.hasQ {
+		return a.String() == b.String()
+	}
+	return false // hash-consed: structurally equal quantifier-free terms are the same pointer
 }
 
 // known-distinct: two different literals.
@@ -529,6 +563,14 @@ func freeBound(q *Term) bool {
 	}
 	walk(q.Args[0], own)
 	return found
+}
+
+// Key: a short identity of the term (its hash-consing id; the printed form for terms with quantifiers).
+func (t *Term) Key() string {
+	if t.hasQ {
+		return t.String()
+	}
+	return "#" + strconv.Itoa(t.id)
 }
 
 func (t *Term) String() string {
